@@ -271,14 +271,31 @@ fn param_hash(data: &[u8]) -> u64 {
 }
 
 pub fn gzip(data: &[u8]) -> Vec<u8> {
-	let level = [6u32, 6, 9, 1, 0, 6, 3, 9][(param_hash(data) % 8) as usize];
-	let mut e = flate2::write::GzEncoder::new(Vec::new(), flate2::Compression::new(level));
-	e.write_all(data).unwrap();
-	e.finish().unwrap()
+	let h = param_hash(data);
+	let level = [6u32, 6, 9, 1, 0, 6, 3, 9][(h % 8) as usize];
+	let member = |part: &[u8]| {
+		let mut e = flate2::write::GzEncoder::new(Vec::new(), flate2::Compression::new(level));
+		e.write_all(part).unwrap();
+		e.finish().unwrap()
+	};
+	// a gzip file is a series of members (RFC 1952 2.2), its content the concatenation of theirs:
+	// one content in 16 is written as two members (`cat a.gz b.gz`), split at a hashed position
+	if (h >> 16) % 16 == 0 && data.len() >= 2 {
+		let cut = 1 + ((h >> 24) % (data.len() as u64 - 1)) as usize;
+		let mut out = member(&data[..cut]);
+		out.extend_from_slice(&member(&data[cut..]));
+		return out;
+	}
+	member(data)
+}
+
+/// true if `gzip(data)` consists of two members
+pub fn gzip_is_multi_member(data: &[u8]) -> bool {
+	(param_hash(data) >> 16) % 16 == 0 && data.len() >= 2
 }
 
 pub fn gunzip(data: &[u8]) -> Result<Vec<u8>, String> {
-	let mut d = flate2::read::GzDecoder::new(data);
+	let mut d = flate2::read::MultiGzDecoder::new(data);
 	let mut out = Vec::new();
 	d.read_to_end(&mut out).map_err(|e| format!("gunzip: {e}"))?;
 	Ok(out)
